@@ -1265,6 +1265,9 @@ class Interp:
             inner = self.loop_with_leading_exit(blk)
             if inner is None:
                 raise Undecided("bare loop", e.get("span"))
+        # the body of a `while` loop is not executed, only havocked: a value-returning exit inside it would be lost
+        if contains_value_exit(inner["then"]) or contains_value_exit(inner["cond"]):
+            raise ControlUndecided("a while loop whose body can return a value is outside the summarisation model", e.get("span"))
         muts = mutated_locals({"k": "expr", "e": inner["then"]})
         inner_vars = collect_bound_vars(inner["then"])
         muts = [m for m in muts if m[0] not in inner_vars and env.lookup(m[0]) is not None]
